@@ -156,7 +156,7 @@ c.modifies()
 c.ensures("isinstance(result, tuple) and len(result) == 3")
 
 c = contract(f"{P}._get_conn", prop="C01")
-c.mode = "assumed"      # used at this contract by urlopen; its own body is verified under the variant below
+c.mode = "assumed"      # used at this contract by urlopen; the body is verified against it (with self.pool volatile) in contracts/pool_queue.py
 c.types(timeout="any")
 c.ghost("out").ghost("getconn_fault").ghost("checkouts")
 c.requires("is_int(ghost.out) and is_int(ghost.checkouts)")
